@@ -209,6 +209,9 @@ func (e *Engine) RenderTo(w io.Writer, name string, context map[string]interface
 
 // Load loads a template by name
 func (e *Engine) Load(name string) (*Template, error) {
+	// The cache entry this call saw (nil when there was none)
+	var seen *Template
+
 	// Only check the cache if caching is enabled
 	if e.environment.cache {
 		// Use a quick check under read lock first to avoid contention
@@ -219,6 +222,8 @@ func (e *Engine) Load(name string) (*Template, error) {
 
 		// If template exists in cache
 		if ok {
+			seen = tmpl
+
 			// If auto-reload is disabled, return the cached template immediately
 			if !e.autoReload {
 				return tmpl, nil
@@ -331,6 +336,12 @@ func (e *Engine) Load(name string) (*Template, error) {
 	// Only cache if caching is enabled
 	if e.environment.cache {
 		e.mu.Lock()
+		if current, ok := e.templates[name]; ok && current != seen {
+			// Somebody registered or loaded this name while the loaders were being read.
+			// That entry is newer than what this call saw: serve it, do not overwrite it
+			e.mu.Unlock()
+			return current, nil
+		}
 		e.templates[name] = template
 		e.mu.Unlock()
 	}
